@@ -30,9 +30,9 @@ Print Assumptions skipper_fuel_monotone.
      "infer U extends C" elsewhere than directly as the extends operand of a
      conditional type (e.g. inside a tuple or type-argument list there);
      "asserts x [is T]" outside return positions (see skip_exact_return);
-     parenthesised types whose content starts with "[" "{" "(" or keyof/readonly
-     (the arrow-parameter attempt of skipTypeScriptParenOrFnType runs
-     arbitrarily far on them); a keyof/readonly operand exposed in the extends
+     parenthesised types whose content starts with "[" or "{" (the
+     arrow-parameter attempt of skipTypeScriptParenOrFnType may run arbitrarily
+     far on them, or even succeed as a parameter list); a keyof/readonly operand exposed in the extends
      clause of a conditional type; computed keys "[expr]:" and "import(..., {with})". *)
 Theorem skip_exact_partial : forall mg t rest lvl f,
   wfb t = true -> lvl <= LPrefix -> lvl_ok t lvl = true -> fNoCond f = false ->
